@@ -134,6 +134,12 @@ def plackett_burman(args):
         params, box = doecommon.sym_parameters(ctx, n)
         g = O.PlackettBurmanGenerator(params)
         rows = g.generate()
+        _pb_checks(ctx, rows, box, n)
+    return body
+
+
+def _pb_checks(ctx, rows, box, n):
+    if True:
         runs = 4 * (n // 4 + 1)
         ctx.output('nrows', len(rows))
         ctx.check('pb-run-count-next-multiple-of-four', len(rows) != runs)
@@ -150,7 +156,6 @@ def plackett_burman(args):
             both_low = _count([And(x, y) for x, y in zip(lowc[a], lowc[b])])
             orth.append(both_low != runs // 4)
         ctx.check('pb-columns-mutually-orthogonal', Or(*orth) if orth else False)
-    return body
 
 
 def box_behnken(args):
@@ -162,6 +167,12 @@ def box_behnken(args):
         params, box = doecommon.sym_parameters(ctx, n)
         g = O.BoxBehnkenGenerator(params)
         rows = g.generate()
+        _bb_checks(ctx, rows, box, n)
+    return body
+
+
+def _bb_checks(ctx, rows, box, n):
+    if True:
         expect = 4 * (n * (n - 1) // 2) + 1
         ctx.output('nrows', len(rows))
         ctx.check('bb-run-count', len(rows) != expect)
@@ -179,6 +190,38 @@ def box_behnken(args):
         ctx.check('bb-every-corner-of-every-factor-pair-once', Or(*bad))
         centre = [And(*[r[k] == mid[k] for k in range(n)]) for r in rows]
         ctx.check('bb-exactly-one-centre-run', _count(centre) != 1)
+
+
+def sequence(args):
+    """Several designs are generated one after the other from the SAME parameter dictionaries (what a study that
+    screens first and refines later does): every generator must still obey its law, and no generator may change the
+    parameter definitions it was given."""
+    n, order = args['n'], args['order']
+    doecommon.install()
+    import artap.operators as O
+
+    def body(ctx):
+        params, box = doecommon.sym_parameters(ctx, n)
+        for step, kind in enumerate(order):
+            if kind == 'bb':
+                g = O.BoxBehnkenGenerator(params)
+                rows = g.generate()
+                _bb_checks(ctx, rows, box, n)
+            elif kind == 'pb':
+                g = O.PlackettBurmanGenerator(params)
+                rows = g.generate()
+                _pb_checks(ctx, rows, box, n)
+            else:
+                g = O.FullFactorGenerator(params)
+                g.init(kind == 'ffc')
+                rows = g.generate()
+                lv = [[lo, (lo + hi) / 2, hi] if kind == 'ffc' else [lo, hi] for lo, hi in box]
+                _fullfact_checks(ctx, rows, lv)
+            ctx.output('rows-%d-%s' % (step, kind), len(rows))
+            ctx.check('generator-leaves-the-parameter-definitions-untouched(%s)' % kind,
+                      any(len(p['bounds']) != 2 for p in params) or
+                      Or(*[Or(ops.differs(p['bounds'][0], lo, 0.0), ops.differs(p['bounds'][1], hi, 0.0))
+                           for p, (lo, hi) in zip(params, box) if len(p['bounds']) == 2]))
     return body
 
 
@@ -247,6 +290,10 @@ def configs(tier):
         out.append({'name': 'pb-n%d' % n, 'task': 'plackett_burman', 'args': {'n': n}, 'weight': n, 'engine': ve})
     for n in ((3, 4, 5) if Q else (3, 4, 5, 6, 7)):
         out.append({'name': 'bb-n%d' % n, 'task': 'box_behnken', 'args': {'n': n}, 'weight': n ** 3, 'engine': ve})
+    for order in ((('bb', 'ff', 'pb'), ('pb', 'bb', 'ffc'), ('ffc', 'bb', 'bb')) if Q else
+                  (('bb', 'ff', 'pb'), ('pb', 'bb', 'ffc'), ('ffc', 'bb', 'bb'), ('ff', 'pb', 'bb'), ('bb', 'pb', 'bb', 'ff'))):
+        out.append({'name': 'sequence-n3-%s' % '-'.join(order), 'task': 'sequence', 'args': {'n': 3, 'order': list(order)},
+                    'weight': 30, 'engine': ve})
     g = [([3, 4], 2), ([2, 3, 4], 2), ([3, 3, 3], 3), ([4, 4], 2), ([3, 4], 3),
          ([2, 3], 3), ([2, 4, 5], 3)]     # reduction larger than the level count of a factor (empty partitions)
     if not Q:
